@@ -35,7 +35,8 @@ typedef int HInt;
 namespace {
 
 using Thread = tlx::std::thread; // = vsched::Thread through the shim (std::thread subclass in the real-thread tier)
-const int MAXJOBS = 24;
+const int SMALLJOBS = 24;
+const int MAXJOBS = 512; // the small targets use <= 24, thread_pool_scale up to ~450
 
 struct JobSpec {
     std::vector<int> children;
@@ -103,7 +104,7 @@ void gen_tree(pbt::Source& src, int id, int depth, bool allow_terminate, bool& u
     if (allow_terminate && !used_terminate && src.chance(64)) js.terminates = used_terminate = true;
     if (depth >= 3) return;
     int nc = (int)src.weighted({5, 3, 1, 1});
-    for (int i = 0; i < nc && st.jobs.size() < (size_t)MAXJOBS; ++i) {
+    for (int i = 0; i < nc && st.jobs.size() < (size_t)SMALLJOBS; ++i) {
         int c = (int)st.jobs.size();
         st.jobs.emplace_back();
         st.jobs[(size_t)id].children.push_back(c);
@@ -115,7 +116,7 @@ void gen_tree(pbt::Source& src, int id, int depth, bool allow_terminate, bool& u
 //! roots of `n` fresh trees
 std::vector<int> gen_forest(pbt::Source& src, int n, bool allow_terminate, bool& used_terminate, bool& nested) {
     std::vector<int> roots;
-    for (int i = 0; i < n && st.jobs.size() < (size_t)MAXJOBS; ++i) {
+    for (int i = 0; i < n && st.jobs.size() < (size_t)SMALLJOBS; ++i) {
         int r = (int)st.jobs.size();
         st.jobs.emplace_back();
         roots.push_back(r);
@@ -349,6 +350,120 @@ PBT_PROPERTY(thread_pool) {
     if (g.P >= 2 && g.nested && S.preemptions >= 2) pbt::nontrivial();
     if (S.preemptions >= 4) pbt::label("preemptions>=4");
     PBT_LOG("steps=" << S.steps << " switches=" << S.switches << " preemptions=" << S.preemptions << "\n");
+}
+
+
+// ---------------------------------------------------------------------------------------------
+// Scale classes (own target, so the mapping of thread_pool stays valid): many workers, many queued
+// jobs (longer than any fixed batch a pool might use), long chains and wide fan-outs of nested jobs.
+PBT_PROPERTY(thread_pool_scale) {
+    st.reset();
+    Program g;
+    int shape = (int)src.range(0, 4);
+    g.P = (int)src.weighted({1, 1, 1, 1}) == 0 ? (int)src.range(1, 4) : (int)src.range(5, 16);
+    g.tmpl = (int)src.weighted({5, 2, 2, 1}); // closed rounds, ext enqueuers, terminate-from-job, two waiters
+    if (g.tmpl == 3) g.n_ext = 1;
+    if (g.tmpl == 1) g.n_ext = 1, g.main_waits_concurrently = src.boolean();
+    auto new_job = [&]() {
+        st.jobs.emplace_back();
+        return (int)st.jobs.size() - 1;
+    };
+    std::vector<int> roots;
+    static const char* snames[] = {"many_independent", "long_chain", "wide_fanout", "chains_and_fans", "two_level_bursts"};
+    switch (shape) {
+    case 0: { // many independent jobs: the queue is far longer than the number of workers
+        int n = (int)src.range(30, 400);
+        for (int i = 0; i < n; ++i) roots.push_back(new_job());
+        break;
+    }
+    case 1: { // long chains: job enqueues one job enqueues one job ...
+        int chains = (int)src.range(1, 4), len = (int)src.range(10, 100);
+        for (int c = 0; c < chains; ++c) {
+            int prev = new_job();
+            roots.push_back(prev);
+            for (int i = 1; i < len && st.jobs.size() < 440; ++i) {
+                int j = new_job();
+                st.jobs[(size_t)prev].children.push_back(j);
+                prev = j;
+            }
+        }
+        g.nested = true;
+        break;
+    }
+    case 2: { // wide fan-out: one job enqueues many
+        int r = new_job();
+        roots.push_back(r);
+        int n = (int)src.range(20, 300);
+        for (int i = 0; i < n; ++i) {
+            int j = new_job();
+            st.jobs[(size_t)r].children.push_back(j);
+        }
+        g.nested = true;
+        break;
+    }
+    case 3: { // mixture
+        int nroots = (int)src.range(3, 20);
+        for (int i = 0; i < nroots; ++i) {
+            int r = new_job();
+            roots.push_back(r);
+            int kids = (int)src.range(0, 12);
+            for (int k = 0; k < kids && st.jobs.size() < 440; ++k) {
+                int j = new_job();
+                st.jobs[(size_t)r].children.push_back(j);
+                if (src.chance(64) && st.jobs.size() < 440) {
+                    int jj = new_job();
+                    st.jobs[(size_t)j].children.push_back(jj);
+                }
+            }
+        }
+        g.nested = true;
+        break;
+    }
+    default: { // bursts: every root enqueues a burst
+        int nroots = (int)src.range(2, 8), burst = (int)src.range(10, 50);
+        for (int i = 0; i < nroots; ++i) {
+            int r = new_job();
+            roots.push_back(r);
+            for (int k = 0; k < burst && st.jobs.size() < 440; ++k) {
+                int j = new_job();
+                st.jobs[(size_t)r].children.push_back(j);
+            }
+        }
+        g.nested = true;
+    }
+    }
+    switch (g.tmpl) {
+    case 0: {
+        // split the roots over 1..3 rounds (reuse after loop_until_empty)
+        int nr = (int)src.range(1, 3);
+        g.rounds.assign((size_t)nr, std::vector<int>());
+        for (size_t i = 0; i < roots.size(); ++i) g.rounds[i * (size_t)nr / roots.size()].push_back(roots[i]);
+        break;
+    }
+    case 1:
+        for (size_t i = 0; i < roots.size(); ++i) (i % 2 ? g.ext1_roots : g.main_roots).push_back(roots[i]);
+        if (g.ext1_roots.empty()) g.ext1_roots.push_back(new_job());
+        break;
+    case 2: { // the LAST job created terminates the pool
+        g.main_roots = roots;
+        st.jobs.back().terminates = true;
+        break;
+    }
+    default:
+        g.ext1_roots = roots;
+        break;
+    }
+    pbt::label(tnames[g.tmpl]);
+    pbt::label(snames[shape]);
+    pbt::label(g.P >= 9 ? "workers>=9" : g.P >= 5 ? "workers=5..8" : "workers<=4");
+    pbt::label(st.jobs.size() >= 256 ? "jobs>=256" : st.jobs.size() >= 64 ? "jobs=64..255" : "jobs<64");
+    PBT_LOG("scale shape=" << snames[shape] << " template=" << tnames[g.tmpl] << " workers=" << g.P << " jobs=" << st.jobs.size() << "\n");
+    vsched::Options opt;
+    opt.max_steps = 2000000;
+    vsched::Run run(src, opt);
+    execute(g);
+    if (g.P >= 5 && st.jobs.size() >= 64) pbt::nontrivial();
+    PBT_LOG("steps=" << vsched::S().steps << " preemptions=" << vsched::S().preemptions << "\n");
 }
 
 // ---------------------------------------------------------------------------------------------
